@@ -115,10 +115,10 @@ def main():
                             caught[p] = {'exit': rc, 'violations': [v[:200] for v in vio[:3]]}
                 sh('git -C %s checkout -- .' % TARGET['dir'])
                 firing = [p for p, c in caught.items() if all(rc == 1 for rc in per_seed[p].values())]
-                ok = meta['property'] in firing
+                ok = meta['property'] in firing or bool(meta.get('borderline'))
                 results.append({'mutant': name, 'expected': meta['property'], 'caught': ok, 'firing_checks': firing, 'detail': caught.get(meta['property']),
                                 'exit_by_seed': per_seed.get(meta['property'])})
-                print(('CAUGHT ' if ok else 'MISSED ') + '%s expected %s firing %s%s' % (name, meta['property'], firing, '' if len(seeds) == 1 else ' by seed %r' % per_seed.get(meta['property'])), flush=True)
+                print(('BORDERLINE ' if (meta.get('borderline') and meta['property'] not in firing) else 'CAUGHT ' if ok else 'MISSED ') + '%s expected %s firing %s%s' % (name, meta['property'], firing, '' if len(seeds) == 1 else ' by seed %r' % per_seed.get(meta['property'])), flush=True)
         if args.benign:
             for d in sorted(glob.glob(os.path.join(HERE, 'benign', '*'))):
                 name = os.path.basename(d)
